@@ -56,8 +56,8 @@ PROPS = {
                           dict(name="fe", family="fe", profile="fe", quick=500, thorough=8000, tags=["panic"])]),
     "C07": dict(theorems=["C07_reinit_zog_issue", "C07_reinit_ctx_issue", "C07_reinit_issue_from_test", "C07_reinit_issue_from_coerce", "C07_reinit_exec_ctx",
                           "C07_reinit_schema_ctx", "C07_reinit_validate_schema_ctx", "C07_fresh_ctx_has_no_values", "C07_pools_stay_linear",
-                          "C07_held_issues_are_distinct_and_not_pooled", "C07_result_is_a_function_of_this_call", "C07_legacy_collect_map_refuted"],
-                cone=["Model/Objects.v", "Proofs/ObjectsP.v"] + ENGINE_CONE,
+                          "C07_held_issues_are_distinct_and_not_pooled", "C07_result_is_a_function_of_this_call", "C07_legacy_collect_map_refuted", "C07_ctx_values_ignore_recycled_context", "C07_legacy_ctx_refuted"],
+                cone=["Model/Objects.v", "Proofs/ObjectsP.v", "Model/Options.v", "Proofs/OptionsP.v"] + ENGINE_CONE,
                 rule="a generated probe execution (schema, data, WithCtxValue / WithIssueFormatter options) is run on freshly cleared pools, after a random history of 1-5 other executions whose results are kept or handed back through CollectMap / CollectList / SanitizeMapAndCollect / SanitizeListAndCollect (GC off, goroutine pinned, so the pools really recycle), and on pools handing out dirty objects (every field junk, CanCatch/Exit set, context values, stale path segments); every issue field, the destination and ctx.Get inside every callback are compared; issue objects of one result must be pairwise distinct; the probe is also compared with the Coq engine; distinct = distinct (schema shape, issue codes, mode)",
                 families=[dict(name="history", family="history", profile="C07", quick=900, thorough=15000,
                                tags=["isolation", "isolation_dirty", "issue_aliased", "panic", "ctx", "nil", "issues", "dest"])]),
@@ -77,13 +77,13 @@ PROPS = {
                           # the map of a call after arbitrary earlier calls (Collect helpers, undecodable bodies): still keyed by its own issues' paths
                           dict(name="history", family="history", profile="C07", quick=400, thorough=5000, tags=["issues", "first", "isolation", "issue_aliased", "panic"]),
                           dict(name="fe", family="fe", profile="fe", quick=700, thorough=8000, tags=["issues", "first", "panic", "nested_source_tag"])]),
-    "C12": dict(theorems=["C12_engine_computes_semantics", "C12_test_receives_the_tested_value", "C12_pts_prefix_in_order", "C12_pts_skipped_when_an_issue_exists", "C12_preprocess_error_skips_schema", "C12_preprocess_type_mismatch_skips_schema", "C12_ctx_values_are_this_calls"], cone=ENGINE_CONE + ["Proofs/ExactP.v", "Model/Objects.v", "Proofs/ObjectsP.v"], rule=ENGINE_RULE,
+    "C12": dict(theorems=["C12_engine_computes_semantics", "C12_test_receives_the_tested_value", "C12_pts_prefix_in_order", "C12_pts_skipped_when_an_issue_exists", "C12_preprocess_error_skips_schema", "C12_preprocess_type_mismatch_skips_schema", "C12_ctx_values_are_this_calls", "C12_ctx_get_is_the_calls_last_option", "C12_ctx_last_call_wins", "C12_ctx_other_keys_nil"], cone=ENGINE_CONE + ["Proofs/ExactP.v", "Model/Objects.v", "Proofs/ObjectsP.v", "Model/Options.v", "Proofs/OptionsP.v"], rule=ENGINE_RULE,
                 families=[eng("engine", "C12", 1200, 20000, ["calls", "args", "ctx", "haserr", "panic"]),
                           # callbacks after arbitrary earlier calls (undecodable request bodies included): still their own node, still this call's context
                           dict(name="history", family="history", profile="C07", quick=500, thorough=6000, tags=["calls", "args", "ctx", "panic"])]),
     "C11": dict(theorems=["C11_catalogue_ok", "C11_custom_described", "C11_legacy_custom_refuted", "C11_no_placeholder_left", "C11_precedence_test", "C11_precedence_exec",
-                          "C11_precedence_global", "C11_i18n_uses_context_language", "C11_i18n_falls_back_to_default"],
-                cone=["Model/Fmt.v", "Proofs/FmtP.v", "Gen/Tables.v"],
+                          "C11_precedence_global", "C11_i18n_uses_context_language", "C11_i18n_falls_back_to_default", "C11_call_formatter_is_last_option"],
+                cone=["Model/Fmt.v", "Proofs/FmtP.v", "Gen/Tables.v", "Model/Options.v", "Proofs/OptionsP.v"],
                 rule="exhaustive: every catalogue entry (every built-in test of every type, plain and negated, required / not_nil / coerce per type, front-end decode failures) x {no language, en, es, unknown language} plus test-level Message, execution-level formatter, both, and a formatter that sets nothing, after an i18n re-installation; then random (entry, language, test message, execution formatter) combinations; the finite theorems are re-proved against the tables dumped from the running code; distinct = distinct (entry, which formatters are present)",
                 families=[sat("messages", "messages", 1500, 12000, ["message", "described", "described_custom"]),
                           eng("engine", "C11", 700, 8000, ["params", "dtype", "msg", "panic"]),
